@@ -186,7 +186,42 @@ func newSorts() *Sorts {
 }
 
 func typeKey(t types.Type) string {
-	return types.TypeString(t, func(p *types.Package) string { return p.Path() })
+	s := types.TypeString(t, func(p *types.Package) string { return p.Path() })
+	// byte and rune are aliases of uint8 and int32: one heap per underlying type
+	return canonBasic(s)
+}
+
+func canonBasic(s string) string {
+	if !strings.Contains(s, "byte") && !strings.Contains(s, "rune") {
+		return s
+	}
+	var b strings.Builder
+	isId := func(c byte) bool {
+		return c == '_' || c >= 'a' && c <= 'z' || c >= 'A' && c <= 'Z' || c >= '0' && c <= '9'
+	}
+	for i := 0; i < len(s); {
+		if isId(s[i]) && (i == 0 || !isId(s[i-1]) && s[i-1] != '.' && s[i-1] != '/') {
+			j := i
+			for j < len(s) && isId(s[j]) {
+				j++
+			}
+			w := s[i:j]
+			if j < len(s) && (s[j] == '.' || s[j] == '/') {
+				b.WriteString(w)
+			} else if w == "byte" {
+				b.WriteString("uint8")
+			} else if w == "rune" {
+				b.WriteString("int32")
+			} else {
+				b.WriteString(w)
+			}
+			i = j
+			continue
+		}
+		b.WriteByte(s[i])
+		i++
+	}
+	return b.String()
 }
 
 // shortName gives a readable unique identifier for a type key.
